@@ -28,29 +28,22 @@ open Impl SlipVerif.Gen
 
 /-! ## checked fixnum arithmetic (pkg/cl/number.go) -/
 
-theorem gen_addFixnums_eq (x y : Int) : NumImpl.addFixnums x y = Impl.addFixnums x y := by
-  unfold NumImpl.addFixnums Impl.addFixnums addOk
-  by_cases h1 : x < addFix x y <;> by_cases h2 : 0 < y <;> simp [h1, h2]
-
-theorem gen_subFixnums_eq (x y : Int) : NumImpl.subFixnums x y = Impl.subFixnums x y := by
-  unfold NumImpl.subFixnums Impl.subFixnums subOk
-  by_cases h1 : subFix x y < x <;> by_cases h2 : 0 < y <;> simp [h1, h2]
-
-theorem gen_mulFixnums_eq (x y : Int) : NumImpl.mulFixnums x y = Impl.mulFixnums x y := by
-  unfold NumImpl.mulFixnums Impl.mulFixnums mulOk minFix
-  by_cases h : (x != 0 && (quoFix (mulFix x y) x != y || x == -1 && y == -9223372036854775808)) = true
-  · rw [if_pos h]; simp [h]
-  · rw [if_neg h]; simp at h; simp; exact h
-
-theorem gen_negFixnum_eq (x : Int) : NumImpl.negFixnum x = Impl.negFixnum x := by
-  unfold NumImpl.negFixnum Impl.negFixnum minFix
-  by_cases h : x = -9223372036854775808 <;> simp [h]
+/-- closes `translated = canonInt (exact result)` for straight-line int64 code with a linear overflow
+    test, whatever the shape of the test (so that an equivalent rewrite of the test re-proves) -/
+macro "fixnum_exact" : tactic => `(tactic| (
+  simp only [bne_iff_ne, ne_eq, decide_eq_decide, Bool.and_eq_true, Bool.or_eq_true, decide_eq_true_eq,
+    Bool.not_eq_true', beq_iff_eq]
+  split <;> split <;> first | rfl | (congr 1; omega) | (exfalso; omega) | omega))
 
 /-- the code's `addFixnums` returns the canonical representation of the exact sum -/
 theorem gen_addFixnums_exact (x y : Int) (hx : inRange x) (hy : inRange y) :
     NumImpl.addFixnums x y = canonInt (x + y) ∧ (NumImpl.addFixnums x y).value = add x y ∧
     (NumImpl.addFixnums x y).tag = typeOf (add x y) := by
-  rw [gen_addFixnums_eq, addFixnums_refines x y hx hy]
+  have h : NumImpl.addFixnums x y = canonInt (x + y) := by
+    unfold NumImpl.addFixnums canonInt isFix minFix maxFix addFix wrap64
+    unfold inRange at hx hy
+    fixnum_exact
+  rw [h]
   refine ⟨rfl, ?_, ?_⟩
   · rw [canonInt_value]; unfold add; push_cast; rfl
   · rw [canonInt_tag]; unfold add; push_cast; rfl
@@ -58,10 +51,22 @@ theorem gen_addFixnums_exact (x y : Int) (hx : inRange x) (hy : inRange y) :
 theorem gen_subFixnums_exact (x y : Int) (hx : inRange x) (hy : inRange y) :
     NumImpl.subFixnums x y = canonInt (x - y) ∧ (NumImpl.subFixnums x y).value = sub x y ∧
     (NumImpl.subFixnums x y).tag = typeOf (sub x y) := by
-  rw [gen_subFixnums_eq, subFixnums_refines x y hx hy]
+  have h : NumImpl.subFixnums x y = canonInt (x - y) := by
+    unfold NumImpl.subFixnums canonInt isFix minFix maxFix subFix wrap64
+    unfold inRange at hx hy
+    fixnum_exact
+  rw [h]
   refine ⟨rfl, ?_, ?_⟩
   · rw [canonInt_value]; unfold sub; push_cast; rfl
   · rw [canonInt_tag]; unfold sub; push_cast; rfl
+
+/-- multiplication: the translated overflow test is the transcription's (`mulOk_iff` proves that test
+    exact; the product is not linear, so this obligation is tied to the shape of the test) -/
+theorem gen_mulFixnums_eq (x y : Int) : NumImpl.mulFixnums x y = Impl.mulFixnums x y := by
+  unfold NumImpl.mulFixnums Impl.mulFixnums mulOk minFix
+  by_cases h : (x != 0 && (quoFix (mulFix x y) x != y || x == -1 && y == -9223372036854775808)) = true
+  · rw [if_pos h]; simp [h]
+  · rw [if_neg h]; simp at h; simp; exact h
 
 theorem gen_mulFixnums_exact (x y : Int) (hx : inRange x) (hy : inRange y) :
     NumImpl.mulFixnums x y = canonInt (x * y) ∧ (NumImpl.mulFixnums x y).value = mul x y ∧
@@ -73,7 +78,11 @@ theorem gen_mulFixnums_exact (x y : Int) (hx : inRange x) (hy : inRange y) :
 
 theorem gen_negFixnum_exact (x : Int) (hx : inRange x) :
     NumImpl.negFixnum x = canonInt (-x) ∧ (NumImpl.negFixnum x).value = neg x := by
-  rw [gen_negFixnum_eq, negFixnum_refines x hx]
+  have h : NumImpl.negFixnum x = canonInt (-x) := by
+    unfold NumImpl.negFixnum canonInt isFix minFix maxFix negFix wrap64
+    unfold inRange at hx
+    fixnum_exact
+  rw [h]
   refine ⟨rfl, ?_⟩
   rw [canonInt_value]; unfold neg; push_cast; rfl
 
